@@ -168,9 +168,14 @@ def rule_copy(c, prog):
                 new_ref_lid = st["pat"].get("lid")
         ok = a0.get("name") == "original_ref" and a1.get("lid") == new_ref_lid and new_ref_lid is not None
     if ok:
+        # and unconditionally: the map is both the list of copies to visit and the translation table
+        for n_ in core.walk_fn(fn):
+            if n_.get("k") in ("If", "Match") and n_.get("src") not in ("TryDesugar", "ForLoopDesugar") and any(x is ins[0] for x in core.walk(n_)) and core.as_for(n_) is None:
+                ok = False
+    if ok:
         c.ok(R, "copy:records-mapping")
     else:
-        c.violation(R, "copy|mapping", "clone_ref_as_builder does not record original_ref -> builder.referent in ref_rewrites", fn.sp, instance="copy:records-mapping")
+        c.violation(R, "copy|mapping", "clone_ref_as_builder does not record original_ref -> builder.referent in ref_rewrites unconditionally (a Ref to a clone that was not recorded is left pointing at the original, or nulled)", fn.sp, instance="copy:records-mapping")
     # children enqueued
     fl = [core.as_for(n) for n in core.walk_fn(fn) if core.as_for(n) is not None and n.get("k") != "DropTemps"]
     ok = False
